@@ -150,7 +150,11 @@ def alphabets(tier):
                  ((2024, 3, 1, 1, 59, 59, 999999), (0, 120, -120)),
                  ((2038, 1, 19, 3, 14, 8, 0), (0, 840, -840)),
                  ((9999, 12, 31, 23, 59, 59, 999998), (0, -840, -1))]
-    a["timestamp"] = [s for utc, offs in inst for s in ts_specs(utc, offs)]
+    merged = {}
+    for utc, offs in inst:                       # the same instant listed twice (quick neighbours + thorough list): one entry, union of zones
+        merged.setdefault(utc, [])
+        merged[utc] += [o for o in offs if o not in merged[utc]]
+    a["timestamp"] = [s for utc, offs in merged.items() for s in ts_specs(utc, tuple(offs))]
     du = [-DUR_MAX, -1500000, -US, -1, 0, 1, US, 1500000, DUR_MAX]
     if th:
         du += [-DUR_MAX + 1, -86400 * US, -3600 * US, -999999, -2, 2, 999999, 60 * US, 86400 * US, DUR_MAX - 1]
